@@ -681,6 +681,11 @@ func (r *Reader) Markdown() (string, error) {
 
 // MarkdownWithOptions returns presentation content as Markdown with options.
 func (r *Reader) MarkdownWithOptions(opts ExtractOptions) (string, error) {
+	return r.markdown(opts, 1)
+}
+
+// markdown renders the slides; titleLevel is the heading level of slide titles.
+func (r *Reader) markdown(opts ExtractOptions, titleLevel int) (string, error) {
 	slides := r.slides
 	if len(opts.SlideNumbers) > 0 {
 		slides = make([]*Slide, 0, len(opts.SlideNumbers))
@@ -700,7 +705,8 @@ func (r *Reader) MarkdownWithOptions(opts ExtractOptions) (string, error) {
 
 		// Slide title as H1
 		if slide.Title != "" {
-			result.WriteString("# ")
+			result.WriteString(strings.Repeat("#", titleLevel))
+			result.WriteString(" ")
 			result.WriteString(slide.Title)
 			result.WriteString("\n\n")
 		}
@@ -799,8 +805,8 @@ func (r *Reader) MarkdownWithRAGOptions(extractOpts ExtractOptions, mdOpts rag.M
 		result.WriteString("\n---\n\n")
 	}
 
-	// Generate main content
-	md, err := r.MarkdownWithOptions(extractOpts)
+	// Generate main content (slide titles are level-1 headings)
+	md, err := r.markdown(extractOpts, mdOpts.AdjustHeadingLevel(1))
 	if err != nil {
 		return "", err
 	}
